@@ -65,4 +65,15 @@ theorem take_append_len {α} (a b : List α) (n : Nat) (h : a.length = n) : (a +
 theorem drop_append_len {α} (a b : List α) (n : Nat) (h : a.length = n) : (a ++ b).drop n = b := by
   subst h; simp
 
+/-- `l.length < n`, looking at no more than `n` cells (keeps the executable model linear) -/
+def shorterThan {α} : List α → Nat → Bool
+  | _, 0 => false
+  | [], _ + 1 => true
+  | _ :: t, n + 1 => shorterThan t n
+
+theorem shorterThan_eq {α} (l : List α) (n : Nat) : shorterThan l n = decide (l.length < n) := by
+  induction l generalizing n with
+  | nil => cases n <;> simp [shorterThan]
+  | cons a t ih => cases n <;> simp [shorterThan, ih]
+
 end Hv.Storage
